@@ -632,6 +632,27 @@ class Machine:
              "Option::cloned", "Option<T>::cloned", "Option<&T>::cloned", "Option::copied", "Option<&T>::copied", "Option<T>::copied",
              "Option::as_deref_mut"):
             return a0
+        if "<impl char>" in c and isinstance(a0, int) and not isinstance(a0, bool) and end.startswith(("is_", "to_", "eq_ignore")):
+            ch = chr(a0)
+            asc = a0 < 128
+            tbl = {
+                "is_ascii_digit": asc and ch.isdigit(), "is_ascii_alphabetic": asc and ch.isalpha(), "is_ascii_alphanumeric": asc and ch.isalnum(),
+                "is_ascii_whitespace": ch in " \t\n\r\x0c", "is_ascii_lowercase": asc and ch.islower(), "is_ascii_uppercase": asc and ch.isupper(),
+                "is_ascii_punctuation": asc and (33 <= a0 <= 47 or 58 <= a0 <= 64 or 91 <= a0 <= 96 or 123 <= a0 <= 126),
+                "is_ascii_hexdigit": asc and ch in "0123456789abcdefABCDEF", "is_ascii_control": a0 < 32 or a0 == 127, "is_ascii": asc,
+                "is_ascii_graphic": 33 <= a0 <= 126,
+                "is_alphabetic": ch.isalpha(), "is_numeric": ch.isnumeric(), "is_alphanumeric": ch.isalnum(), "is_whitespace": ch.isspace() or ch in "\x85",
+                "is_lowercase": ch.islower(), "is_uppercase": ch.isupper(), "is_control": a0 < 32 or 127 <= a0 < 160,
+            }
+            if end in tbl:
+                return bool(tbl[end])
+            if end == "is_digit" and len(a) > 1 and isinstance(a[1], int):
+                return ch.lower() in "0123456789abcdefghijklmnopqrstuvwxyz"[:a[1]]
+            if end == "to_digit" and len(a) > 1 and isinstance(a[1], int):
+                i = "0123456789abcdefghijklmnopqrstuvwxyz".find(ch.lower())
+                return some(i) if 0 <= i < a[1] else none()
+            if end in ("to_ascii_lowercase", "to_ascii_uppercase"):
+                return ord(ch.lower() if "lower" in end else ch.upper()) if asc else a0
         if "<impl char>" in c and end in ("escape_default", "escape_debug", "escape_unicode") and isinstance(a0, int) and not isinstance(a0, bool):
             # the text the escape iterator yields (it is only ever printed or collected)
             ch = chr(a0)
@@ -914,8 +935,13 @@ class Machine:
         if m("Vec as std::iter::Extend>::extend", "SmallVec as std::iter::Extend>::extend", "Vec::extend"):
             if isinstance(a0, list):
                 src = a[1].rest() if isinstance(a[1], Iter) else (list(a[1]) if isinstance(a[1], list) else None)
+                if src is None and isinstance(a[1], Enum) and is_opt(a[1]):
+                    src = list(a[1].fields[:1]) if a[1].variant == 1 else []          # an Option is an iterator of 0 or 1 items
+                if src is None and isinstance(a[1], Enum) and self.has_local_next(a[1]):
+                    mat = self.materialize(a[1])
+                    src = mat.rest() if mat is not None else None
                 if src is None:
-                    return UNKNOWN
+                    raise Stuck("Vec::extend with a source that cannot be enumerated (%r)" % (a[1],))
                 a0.extend(src)
                 return []
             return UNKNOWN
@@ -940,15 +966,21 @@ class Machine:
             if isinstance(a0, list) and isinstance(a[1], int):
                 del a0[a[1]:]
                 return []
+            if isinstance(a0, list):
+                raise Stuck("Vec::truncate to an unknown length")
             return UNKNOWN
         if m("Vec::insert", "SmallVec::insert"):
             if isinstance(a0, list) and isinstance(a[1], int) and 0 <= a[1] <= len(a0):
                 a0.insert(a[1], a[2])
                 return []
+            if isinstance(a0, list):
+                raise Stuck("Vec::insert at an unknown / out-of-range index")
             return UNKNOWN
         if m("Vec::remove", "SmallVec::remove"):
             if isinstance(a0, list) and isinstance(a[1], int) and 0 <= a[1] < len(a0):
                 return a0.pop(a[1])
+            if isinstance(a0, list):
+                raise Stuck("Vec::remove at an unknown / out-of-range index")
             return UNKNOWN
         if m("<impl [T]>::sort", "<impl [T]>::sort_unstable"):
             # total order of concrete strings / integers only (Rust's Ord on str is bytewise = Python's order on str for ASCII)
@@ -1176,10 +1208,40 @@ class Machine:
             if mat is not None:
                 a = [mat] + list(a[1:])
                 a0 = mat
+        if end == "next" and "RangeFrom" in c and isinstance(a0, Enum) and a0.fields and isinstance(a0.fields[0], int) and not isinstance(a0.fields[0], bool):
+            v = a0.fields[0]                          # `for i in 0..`: the counter lives in the range value
+            if v > 10000:
+                raise Stuck("unbounded counting loop")
+            a0.fields[0] = v + 1
+            return some(v)
+        if end == "next" and c.startswith("<&mut I as ") and not isinstance(a0, Iter):
+            r = self.step(a0)                         # `(&mut iterator).next()`: the iterator itself
+            return UNKNOWN if r is NOT else r
         if end == "next":
             if isinstance(a0, Iter):
                 return a0.next()
             return NOT
+        if end in ("next_back", "nth", "nth_back") and isinstance(a0, Iter):
+            if isinstance(a0, LazyIter):
+                a0.items, a0.pos, a0.gen = a0.rest(), 0, iter(())          # a double-ended walk needs the items
+                a0.__class__ = Iter
+            rem = a0.items[a0.pos:]
+            if end == "next_back":
+                if not rem:
+                    return none()
+                a0.items = a0.items[:a0.pos] + rem[:-1]
+                return some(rem[-1])
+            k = a[1] if len(a) > 1 else None
+            if not isinstance(k, int) or isinstance(k, bool):
+                raise Stuck("%s with an unknown index" % end)
+            if end == "nth":
+                a0.pos = min(len(a0.items), a0.pos + k + 1)
+                return some(rem[k]) if k < len(rem) else none()
+            if k < len(rem):
+                a0.items = a0.items[:a0.pos] + rem[:len(rem) - k - 1]
+                return some(rem[len(rem) - k - 1])
+            a0.items = a0.items[:a0.pos]
+            return none()
         if not isinstance(a0, Iter):
             if end in ITER_METHODS and not (self.fb.by_path(c, self.crate)):
                 return UNKNOWN
@@ -1204,6 +1266,28 @@ class Machine:
                     if r.variant == 1:
                         yield r.fields[0]
             return LazyIter(g_fmap())
+        if end in ("flatten", "flat_map"):
+            def g_flat():
+                for x in drain(a0):
+                    if end == "flat_map":
+                        x = self.call_value(a[1], [x])
+                    x = absint.deref(x)
+                    if isinstance(x, Iter):
+                        for y in drain(x):
+                            yield y
+                    elif type(x) is list:
+                        for y in x:
+                            yield y
+                    elif isinstance(x, Enum) and (is_opt(x) or is_res(x)):
+                        good = (x.variant == 1) if is_opt(x) else (x.variant == 0)
+                        if good:
+                            yield x.fields[0]
+                    elif isinstance(x, Enum) and self.has_local_next(x):
+                        for y in drain(self.materialize(x)):
+                            yield y
+                    else:
+                        raise Stuck("flatten over an item that cannot be enumerated (%r)" % (x,))
+            return LazyIter(g_flat())
         if end == "map_while":
             def g_mw():
                 for x in drain(a0):
@@ -1436,5 +1520,5 @@ OPTION_METHODS = {"transpose", "map", "and_then", "ok_or", "ok_or_else", "unwrap
                   "is_none", "or", "or_else", "filter", "unwrap", "expect", "take", "replace"}
 RESULT_METHODS = {"transpose", "map", "map_err", "and_then", "or_else", "ok", "err", "is_ok", "is_err", "unwrap_or", "unwrap_or_else", "unwrap",
                   "expect"}
-ITER_METHODS = {"map", "filter", "filter_map", "map_while", "take_while", "enumerate", "rev", "skip", "take", "zip", "chain", "collect", "count", "last",
-                "for_each", "fold", "try_fold", "try_for_each", "any", "all", "find", "position", "find_map", "next"}
+ITER_METHODS = {"map", "filter", "filter_map", "map_while", "take_while", "flatten", "flat_map", "enumerate", "rev", "skip", "take", "zip", "chain", "collect", "count", "last",
+                "for_each", "fold", "try_fold", "try_for_each", "any", "all", "find", "position", "find_map", "next", "next_back", "nth", "nth_back"}
